@@ -45,6 +45,25 @@ type vOp struct {
 	Key  string
 	Out  string // ok | notexist | err | cancel | true | false
 	Seq  int64
+	Req  int // request id carried by the context (vWithReq), 0 = none
+}
+
+// vReqKey tags a context with the id of the request it belongs to, so that the doubles can
+// attribute storage and issuer calls to requests (the tag survives WithoutCancel/WithValue)
+type vReqKey struct{}
+
+func vWithReq(ctx context.Context, id int) context.Context {
+	return context.WithValue(ctx, vReqKey{}, id)
+}
+
+func vReqOf(ctx context.Context) int {
+	if ctx == nil {
+		return 0
+	}
+	if id, ok := ctx.Value(vReqKey{}).(int); ok {
+		return id
+	}
+	return 0
 }
 
 var (
@@ -58,11 +77,13 @@ type vMem struct {
 	data   map[string][]byte
 	mod    map[string]time.Time
 	held   map[string]chan struct{} // lock name -> closed on unlock
+	reqOf  map[int]int
 	ops    []vOp
 	n      int
 	Fault  func(n int, kind, key string) error // nil = no fault; errVPanic panics; errVCancel calls Cancel
 	Cancel context.CancelFunc
 	OnOp   func(n int, kind, key string) // called before the operation, outside the mutex
+	OnOpCtx func(ctx context.Context, n int, kind, key string) // same, with the caller's context (request tag)
 	After  func(n int, kind, key string) // called after the operation (snapshots), outside the mutex
 	Quiet  func(kind, key string) bool   // operations not counted / logged (e.g. rw_test self-check)
 }
@@ -80,10 +101,19 @@ func (m *vMem) begin(ctx context.Context, kind, key string) (int, error) {
 	m.mu.Lock()
 	m.n++
 	n := m.n
-	f, on := m.Fault, m.OnOp
+	if r := vReqOf(ctx); r != 0 {
+		if m.reqOf == nil {
+			m.reqOf = map[int]int{}
+		}
+		m.reqOf[n] = r
+	}
+	f, on, onc := m.Fault, m.OnOp, m.OnOpCtx
 	m.mu.Unlock()
 	if on != nil {
 		on(n, kind, key)
+	}
+	if onc != nil {
+		onc(ctx, n, kind, key)
 	}
 	if f != nil {
 		if err := f(n, kind, key); err != nil {
@@ -110,12 +140,19 @@ func (m *vMem) begin(ctx context.Context, kind, key string) (int, error) {
 	return n, nil
 }
 
-func (m *vMem) log(n int, kind, key, out string) {
+func (m *vMem) log(n int, kind, key, out string) { m.logAt(n, kind, key, out, 0) }
+
+// logAt records an operation; seq is the sequence number taken at the operation's
+// linearisation point (inside the storage mutex), 0 = take one now
+func (m *vMem) logAt(n int, kind, key, out string, seq int64) {
 	if n == 0 {
 		return
 	}
 	m.mu.Lock()
-	m.ops = append(m.ops, vOp{N: n, Kind: kind, Key: key, Out: out, Seq: vSeq()})
+	if seq == 0 {
+		seq = vSeq()
+	}
+	m.ops = append(m.ops, vOp{N: n, Kind: kind, Key: key, Out: out, Seq: seq, Req: m.reqOf[n]})
 	a := m.After
 	m.mu.Unlock()
 	if a != nil {
@@ -178,8 +215,9 @@ func (m *vMem) Store(ctx context.Context, key string, value []byte) error {
 	m.mu.Lock()
 	m.data[key] = append([]byte(nil), value...)
 	m.mod[key] = time.Now()
+	seq := vSeq()
 	m.mu.Unlock()
-	m.log(n, "Store", key, "ok")
+	m.logAt(n, "Store", key, "ok", seq)
 	return nil
 }
 
@@ -190,12 +228,13 @@ func (m *vMem) Load(ctx context.Context, key string) ([]byte, error) {
 	}
 	m.mu.Lock()
 	v, ok := m.data[key]
+	seq := vSeq()
 	m.mu.Unlock()
 	if !ok {
-		m.log(n, "Load", key, "notexist")
+		m.logAt(n, "Load", key, "notexist", seq)
 		return nil, fs.ErrNotExist
 	}
-	m.log(n, "Load", key, "ok")
+	m.logAt(n, "Load", key, "ok", seq)
 	return append([]byte(nil), v...), nil
 }
 
@@ -224,8 +263,9 @@ func (m *vMem) Delete(ctx context.Context, key string) error {
 			delete(m.mod, k)
 		}
 	}
+	seq := vSeq()
 	m.mu.Unlock()
-	m.log(n, "Delete", key, "ok")
+	m.logAt(n, "Delete", key, "ok", seq)
 	return nil
 }
 
@@ -237,8 +277,9 @@ func (m *vMem) Exists(ctx context.Context, key string) bool {
 	m.mu.Lock()
 	_, ok := m.data[key]
 	ok = ok || m.isDirLocked(key)
+	seq := vSeq()
 	m.mu.Unlock()
-	m.log(n, "Exists", key, fmt.Sprint(ok))
+	m.logAt(n, "Exists", key, fmt.Sprint(ok), seq)
 	return ok
 }
 
@@ -313,8 +354,9 @@ func (m *vMem) Lock(ctx context.Context, name string) error {
 		ch, busy := m.held[name]
 		if !busy {
 			m.held[name] = make(chan struct{})
+			seq := vSeq()
 			m.mu.Unlock()
-			m.log(n, "Lock", name, "ok")
+			m.logAt(n, "Lock", name, "ok", seq)
 			return nil
 		}
 		m.mu.Unlock()
@@ -342,12 +384,13 @@ func (m *vMem) Unlock(ctx context.Context, name string) error {
 		delete(m.held, name)
 		close(ch)
 	}
+	seq := vSeq()
 	m.mu.Unlock()
 	if !ok {
-		m.log(n, "Unlock", name, "notexist")
+		m.logAt(n, "Unlock", name, "notexist", seq)
 		return fs.ErrNotExist
 	}
-	m.log(n, "Unlock", name, "ok")
+	m.logAt(n, "Unlock", name, "ok", seq)
 	return nil
 }
 
@@ -463,6 +506,7 @@ type vIssueCall struct {
 	BeginAt  time.Time
 	EndAt    time.Time
 	IssuerID string
+	Req      int
 }
 
 type vIssuer struct {
@@ -499,7 +543,7 @@ func (i *vIssuer) Issue(ctx context.Context, csr *x509.CertificateRequest) (*Iss
 		att = *a
 	}
 	i.mu.Lock()
-	i.calls = append(i.calls, vIssueCall{Names: names, Attempt: att, Begin: vSeq(), BeginAt: time.Now(), IssuerID: i.ID})
+	i.calls = append(i.calls, vIssueCall{Names: names, Attempt: att, Begin: vSeq(), BeginAt: time.Now(), IssuerID: i.ID, Req: vReqOf(ctx)})
 	n := len(i.calls)
 	behave, on := i.Behave, i.OnBegin
 	i.mu.Unlock()
